@@ -766,8 +766,8 @@ func lgCompareCmp(c *lgCase, k *lgConc, unit string, er *lgRow, or *benchstat.Ro
 		return shown, lgF("delta-hidden-despite-significance", "%s: '~' shown although p=%v < alpha=%v (old %v new %v)", where, p, alpha, oldR, newR), ""
 	}
 	if !shown {
-		if or.Change != 0 || or.PctDelta != 0 {
-			return shown, lgF("direction", "%s: no delta shown but Change=%d PctDelta=%v", where, or.Change, or.PctDelta), ""
+		if or.Change != 0 {
+			return shown, lgF("direction", "%s: no delta shown but the row is flagged Change=%+d", where, or.Change), ""
 		}
 	} else if !cmp.Dfree {
 		num, err := strconv.ParseFloat(strings.TrimSuffix(or.Delta, "%"), 64)
